@@ -1400,3 +1400,33 @@ func H01b_DeepChain() {
 
 func H02b_DeepChain() { H01b_DeepChain() }
 func H05b_DeepChain() { H01b_DeepChain() }
+
+// H10m_EmptyPresent: a field that is present in the data with zero length
+// (foreign or hand-built data; plenc itself omits empty plain strings)
+// overwrites the target's prior value like any other present field - plain
+// string, byte slice and interned string alike.
+func H10m_EmptyPresent() {
+	p := newPlenc(cfgDef)
+	old := vrt.String("old", 1)
+	which := vrt.Choice("present", 8) // bit i: field i+1 present with zero length
+	var data []byte
+	for i := 0; i < 3; i++ {
+		if which&(1<<uint(i)) != 0 {
+			data = refLenField(data, i+1, nil)
+		}
+	}
+	dst := cat.TStrs{A: "a" + old, B: []byte("b" + old), C: "c" + old}
+	vrt.Assert("unmarshal ok", p.Unmarshal(data, &dst) == nil)
+	expA, expB, expC := "a"+old, "b"+old, "c"+old
+	if which&1 != 0 {
+		expA = ""
+	}
+	if which&2 != 0 {
+		expB = ""
+	}
+	if which&4 != 0 {
+		expC = ""
+	}
+	vrt.Assert("present-but-empty fields are overwritten, absent ones keep their value",
+		vrt.And(dst.A == expA, vrt.And(string(dst.B) == expB, dst.C == expC)))
+}
